@@ -114,10 +114,16 @@ func c06Unit(layout string) int {
 	if layout == "2006-01-02 15:04:05.000" {
 		return 86400000
 	}
+	if layout == "2006-01-02 15:04:05.000000" {
+		return 86400000000
+	}
 	return 1440
 }
 
 func c06Inst(day, v int, layout string) string {
+	if layout == "2006-01-02 15:04:05.000000" {
+		return strings.TrimSuffix(vFmtDay(day, layout), "00:00:00.000000") + fmt.Sprintf("%02d:%02d:%02d.%06d", v/3600000000, v/60000000%60, v/1000000%60, v%1000000)
+	}
 	if layout == "2006-01-02 15:04:05.000" {
 		return strings.TrimSuffix(vFmtDay(day, layout), "00:00:00.000") + fmt.Sprintf("%02d:%02d:%02d.%03d", v/3600000, v/60000%60, v/1000%60, v%1000)
 	}
@@ -132,7 +138,7 @@ func c06SortedLines(s string) string {
 
 func checkC06(c c06Case, ctx *vCtx) *vFailure {
 	if c.Clock {
-		if (c.Layout != "2006-01-02 15:04" && c.Layout != "2006-01-02 15:04:05.000" && !c06Zoned(c)) || len(c.Mins) != len(c.S.Log.Recs) || (c06Zoned(c) && len(c.Offs) != len(c.Mins)) {
+		if (c.Layout != "2006-01-02 15:04" && c.Layout != "2006-01-02 15:04:05.000" && c.Layout != "2006-01-02 15:04:05.000000" && !c06Zoned(c)) || len(c.Mins) != len(c.S.Log.Recs) || (c06Zoned(c) && len(c.Offs) != len(c.Mins)) {
 			vFault("C06 clock mode: layout %q, %d records, %d minutes", c.Layout, len(c.S.Log.Recs), len(c.Mins))
 		}
 		recs := append([]vRec{}, c.S.Log.Recs...)
@@ -209,9 +215,34 @@ func checkC06(c c06Case, ctx *vCtx) *vFailure {
 				arg = c06InstZ(c.Summary.Day, c.BMins[0], off)
 			}
 			lo := day*1440 - off
+			hi := lo + 1439
+			if c.Summary.Kind == "date" {
+				// an offset that is the one the process zone has at that moment makes the date a local date: the day then has
+				// the length the zone gives it (23, 24 or 25 hours). The zone rules come from the time package; everything
+				// else stays integer arithmetic.
+				loc := vZone(c.TZ)
+				y, m, d := vCivil(c.Summary.Day)
+				t := time.Date(y, time.Month(m), d, c.BMins[0]/60, c.BMins[0]%60, 0, 0, time.FixedZone("", off*60))
+				if _, zoff := t.In(loc).Zone(); zoff == off*60 {
+					lt := t.In(loc)
+					base := time.Date(2021, 1, 1, 0, 0, 0, 0, time.UTC).Unix()
+					start := time.Date(lt.Year(), lt.Month(), lt.Day(), 0, 0, 0, 0, loc)
+					end := time.Date(lt.Year(), lt.Month(), lt.Day(), 24, 0, 0, -1, loc)
+					fl := func(a int64) int { // floor(a/60)
+						if a >= 0 {
+							return int(a / 60)
+						}
+						return int(-((-a + 59) / 60))
+					}
+					lo, hi = fl(start.Unix()-base), fl(end.Unix()-base)
+					if hi-lo != 1439 {
+						ctx.Label("summary-day-not-24h")
+					}
+				}
+			}
 			selDay = func(i int) bool {
 				ti := c.S.Days[i]*1440 + c.Mins[i] - c.Offs[i]
-				return ti >= lo && ti <= lo+1439
+				return ti >= lo && ti <= hi
 			}
 		}
 		ctx.Label("summary:" + c.Summary.Kind)
@@ -458,14 +489,19 @@ func genC06(t *rapid.T) c06Case {
 		Bin:     rapid.IntRange(0, 29).Draw(t, "bin") == 0,
 		LongOpt: rapid.IntRange(0, 3).Draw(t, "long") == 0,
 		FmtVia:  []string{"", "", "env", "config"}[rapid.IntRange(0, 3).Draw(t, "fmtvia")]}
-	if layout == "" && rapid.IntRange(0, 2).Draw(t, "clock") == 0 {
+	var clockEdges []int
+	if rapid.IntRange(0, 3).Draw(t, "clock") == 0 {
 		// a date format with a clock component: the period is an interval of instants (minutes, or milliseconds)
-		c.Clock, c.Layout = true, []string{"2006-01-02 15:04", "2006-01-02 15:04:05.000", c06ZoneLayout}[rapid.IntRange(0, 2).Draw(t, "clocklayout")]
+		c.Clock, c.Layout = true, []string{"2006-01-02 15:04", "2006-01-02 15:04:05.000", c06ZoneLayout, "2006-01-02 15:04:05.000000"}[rapid.IntRange(0, 3).Draw(t, "clocklayout")]
 		unit := c06Unit(c.Layout)
 		edges := []int{0, 1, 719, 720, 1438, 1439}
 		if unit > 1440 {
 			edges = []int{0, 1, 999, 1000, 43200000, 86399000, 86399001, 86399250, 86399999}
 		}
+		if unit > 86400000 {
+			edges = []int{0, 1, 999, 1000, 43200000000, 86399000000, 86399000001, 86399999000, 86399999001, 86399999500, 86399999999}
+		}
+		clockEdges = edges
 		instant := func(label string) int {
 			if rapid.Bool().Draw(t, label+".edge") {
 				return edges[rapid.IntRange(0, len(edges)-1).Draw(t, label+".e")]
@@ -495,6 +531,14 @@ func genC06(t *rapid.T) c06Case {
 			b = c06Bound{Kind: "today"}
 		}
 		c.Summary = &b
+		if c.Clock && len(c.S.Days) > 0 && len(clockEdges) > 3 && rapid.Bool().Draw(t, "sumedge") {
+			// a record in the very last (or first) instants of the day asked for
+			if day, ok := b.resolve(today); ok {
+				j := rapid.IntRange(0, len(c.S.Days)-1).Draw(t, "sumedgej")
+				c.S.Days[j] = day
+				c.Mins[j] = []int{clockEdges[len(clockEdges)-1], clockEdges[len(clockEdges)-2], clockEdges[len(clockEdges)-3], 0, 1}[rapid.IntRange(0, 4).Draw(t, "sumedgev")]
+			}
+		}
 		return c
 	}
 	c.Cmd = rapid.IntRange(0, len(c06Commands)-1).Draw(t, "cmd")
